@@ -135,7 +135,13 @@ class FSArray(Sequence):
         if value.__class__.__name__ == "ndarray":
             value = [fmtstr("".join(line)) for line in value]
 
-        rowslice = normalize_slice(sys.maxsize, rowslice)
+        if isinstance(rowslice, int) and rowslice >= 0:
+            # a row below the last one makes the array grow
+            rowslice = normalize_slice(sys.maxsize, rowslice)
+        else:
+            # omitted and negative row bounds refer to the rows the array has;
+            # only an explicit stop below the last row makes it grow
+            rowslice = normalize_slice(len(self.rows), rowslice)
         additional_rows = max(0, rowslice.stop - len(self.rows))
         # the array only grows once the assignment is known to be valid
         rows = self.rows + [
